@@ -118,6 +118,36 @@ PROPS["C19"] = {
                   "forced schedules, not proved.",
     "technique": "Lean 4 proof (inductive invariant over all interleavings) + forced-schedule correspondence under synctest",
 }
+PROPS["C16"] = {
+    "lean": ["SioVerif.Props.C16"],
+    "lockgraph": True,
+    "components": ["race:TestConcurrentAPI"],
+    "facts": [],
+    "timeout": {"quick": 1200, "thorough": 6000},
+    "rule": "randomly generated concurrent programs over the server, namespace, server socket, manager, client socket and adapter APIs (34 operation kinds: emit with and without "
+            "ack, broadcast, join / leave, registering and removing event, lifecycle and middleware handlers, connect, disconnect, new namespaces, adapter queries), 2..16 goroutines "
+            "x 40 operations (16 goroutines in every third program), operations also issued from inside event, acknowledgement, lifecycle and middleware handlers, GOMAXPROCS "
+            "cycling through 16, 1, 2, 4, random yields injected at the library's hook points, real time, binary built with -race: a race report counts when both conflicting "
+            "accesses are in the library; a watchdog reports operations that have not returned after 25 s; plus one scripted program in which every kind of handler calls the "
+            "registration and removal functions of its own kind. Non-trivial = every program / probe; distinct by description.",
+    "trusted_base": EXT + ["/verif/lockgraph (golang.org/x/tools go/ssa, VTA call graph over CHA): may-hold analysis, context-sensitive in the set of locks held and in boolean "
+                           "constants passed; dynamic calls the call graph cannot resolve fall back to every closure / bound method of identical signature; function values handed to "
+                           "functions outside the module are assumed to be called by them; an application handler (reflect.Value.Call, a value of one of the root package's exported "
+                           "...Func types) called with a lock held is given edges to every lock any exported operation may acquire",
+                           "Go race detector, go1.26.8 runtime"],
+    "assumptions": ["lock classes identify a mutex by the struct field / variable that holds it; two instances of one class are not ordered (no such nesting exists: no_same_class_nesting)",
+                    "goroutines started with `go` and by time.AfterFunc start with no lock held",
+                    "the example programs under examples/ are applications, not part of the library"],
+    "partial": ["data-race freedom is not proved: the race detector over generated programs is testing, and says nothing about programs and schedules it did not run",
+                "blocking through channels, WaitGroups, sync.Once and the network is outside the lock graph (the watchdog and C06/C17/C19 cover parts of it)"],
+    "level_text": "Lean 4 theorem (lock-order argument, generic): if a rank on lock classes increases along every edge of a graph, no configuration of goroutines whose "
+                  "wait-while-holding pairs are edges of the graph contains a cycle of goroutines each waiting for a lock the next one holds - for any number of goroutines and any "
+                  "schedule. Instantiated on every run with the lock graph the translator computes from the current sources (SSA + call graph; handlers called under a lock may call "
+                  "any exported operation): the proposed rank is checked edge by edge by the kernel (decide); no lock class is nested in itself; no function returns holding a lock. "
+                  "Data races: not proved; the race detector and a hang watchdog run over generated concurrent programs (testing).",
+    "level_note": "Trusted: Lean kernel, the lock-graph translator (its soundness is the tie to the code), race detector. Deadlock freedom is proved for mutexes only; race freedom is tested.",
+    "technique": "Lean 4 proof (lock-order theorem instantiated with a lock graph regenerated from the source) + race detector and hang watchdog over random concurrent API programs",
+}
 PROPS["C17"] = {
     "lean": ["SioVerif.Props.C17"],
     "components": ["eioserver"],
